@@ -32,6 +32,9 @@ func init() {
 		"unicode.IsLetter":      libIsLetter,
 		"math.Log":              libLog,
 		"math.IsNaN":            libIsNaN,
+		"math.Floor":            libFloor,
+		"sort.SearchInts":       libSearch,
+		"sort.SearchStrings":    libSearch,
 		"sort.SliceStable":      libSortSlice,
 		"bufio.NewScanner":          libNewScanner,
 		"(*bufio.Scanner).Buffer":   libScannerBuffer,
@@ -458,4 +461,42 @@ func (x *Exec) pkgVar(pkg, name string, ty types.Type) string {
 func libIsNaN(x *Exec, n *ast.CallExpr, recv *Val, recvExpr ast.Expr, st *State, env *Env) Val {
 	v := x.defaultType(x.eval(n.Args[0], st, env))
 	return Val{T: x.c.accessor("f.nan", v.T), Ty: tBool}
+}
+
+
+func libFloor(x *Exec, n *ast.CallExpr, recv *Val, recvExpr ast.Expr, st *State, env *Env) Val {
+	v := x.defaultType(x.eval(n.Args[0], st, env))
+	return Val{T: app("f.floor", v.T), Ty: tFloat}
+}
+
+
+// sort.SearchInts / sort.SearchStrings: on an ascending slice, the least index whose element is >= x (len if none).
+// Sortedness is an obligation at the call site (pre@sort.Search); the characterisation is assumed only under it.
+func libSearch(x *Exec, n *ast.CallExpr, recv *Val, recvExpr ast.Expr, st *State, env *Env) Val {
+	c := x.c
+	a := x.eval(n.Args[0], st, env)
+	et := x.elemType(a.Ty)
+	v := x.coerce(x.eval(n.Args[1], st, env), et)
+	es := c.sortOf(et)
+	ref, off, ln, _ := x.sliceParts(a)
+	h := x.heap(st, es)
+	arr := c.define("arr", "(Array Int "+es+")", app("select", h, ref))
+	lt := func(p, q string) string {
+		if isString(et) {
+			return app("gs.lt", p, q)
+		}
+		return app("<", p, q)
+	}
+	i := c.freshName("i")
+	j := c.freshName("j")
+	sorted := fmt.Sprintf("(forall ((%s Int) (%s Int)) (=> (and (<= %s %s) (< %s %s) (< %s (+ %s %s))) (not %s)))", i, j, off, i, i, j, j, off, ln, lt(app("select", arr, j), app("select", arr, i)))
+	x.oblige("pre@sort.Search", x.ord[n], n.Pos(), st, sorted, "slice passed to sort.Search* is in ascending order")
+	c.assume(st.pc, sorted)
+	idx := c.freshConst("idx", "Int")
+	k := c.freshName("k")
+	c.assume(st.pc, and(app("<=", "0", idx), app("<=", idx, ln),
+		fmt.Sprintf("(forall ((%s Int)) (=> (and (<= %s %s) (< %s (+ %s %s))) %s))", k, off, k, k, off, idx, lt(app("select", arr, k), v.T)),
+		fmt.Sprintf("(forall ((%s Int)) (=> (and (<= (+ %s %s) %s) (< %s (+ %s %s))) (not %s)))", k, off, idx, k, k, off, ln, lt(app("select", arr, k), v.T))))
+	c.trusted["sort.SearchInts/SearchStrings: least index with element >= x on an ascending slice (sortedness checked at the call site)"] = true
+	return Val{T: idx, Ty: tInt}
 }
